@@ -119,10 +119,13 @@ def check(tier: str, seed: int) -> int:
         with ThreadPoolExecutor(max_workers=shards) as ex:
             rs = list(ex.map(one, files))
         verdict = {}
+        unspec: set = set()
         for r in rs:
             run.add_model(r)
             for p in r.printed:
                 verdict[(p["id"], p["l"])] = p["bad"]
+                if p.get("unspec"):
+                    unspec.add((p["id"], p["l"]))
         run.traces += len(lines)
     finally:
         shutil.rmtree(tmp, ignore_errors=True)
@@ -135,6 +138,8 @@ def check(tier: str, seed: int) -> int:
             if bad is None:
                 raise tlc.TLCFailure(f"no verdict for history {c['id']} step {k + 1}")
             run.case(json.dumps([c["text"], c["ops"][:k + 1]]), nontrivial=True)
+            if (c["id"], k + 1) in unspec:
+                break
             if bad:
                 op = c["ops"][k]
                 pre = doc(c["r"]["text0"]) if k == 0 else c["events"][k - 1]["post"]
